@@ -269,6 +269,21 @@ func c17() []scenario {
 				}
 			})
 		}},
+		{"c17: exported log serialised while pending entries complete", func() {
+			// what the export handler does: Export, then serialise outside the logger's lock, while responses for
+			// entries that were pending at the time of the export are being recorded
+			for k := 0; k < 25; k++ {
+				l := har.NewLogger()
+				for i := 0; i < 4; i++ {
+					l.RecordRequest(fmt.Sprintf("p%d", i), req(i))
+				}
+				parallel(func() { h := l.Export(); json.Marshal(h) }, func() {
+					for i := 0; i < 4; i++ {
+						l.RecordResponse(fmt.Sprintf("p%d", i), res(i))
+					}
+				})
+			}
+		}},
 		{"c17: export json vs response", func() {
 			l := har.NewLogger()
 			l.RecordRequest("a", req(1))
@@ -548,6 +563,99 @@ func (s *sink) Write(p []byte) (int, error) {
 }
 
 func c19() []scenario {
+	violation := func(sig, format string, a ...interface{}) {
+		fmt.Fprintf(os.Stderr, "RACEBODY VIOLATION "+sig+" "+format+"\n", a...)
+	}
+	pattern := func(n int, salt byte) string {
+		b := make([]byte, n)
+		for i := range b {
+			b[i] = byte(i*7) ^ salt
+		}
+		return string(b)
+	}
+	// exchange logs a request whose body is read in small pieces and then its response (http.NoBody, or a body
+	// copied with io.Copy's 32 KiB buffer) under one id; it returns what the decoded log must contain.
+	type want struct {
+		id       string
+		req, res string
+	}
+	exchange := func(s *marbl.Stream, id string, reqLen, resLen int, out *want) func() {
+		return func() {
+			*out = want{id: id[:8], req: pattern(reqLen, id[0]), res: pattern(resLen, id[1])}
+			r, _ := http.NewRequest("POST", "http://example.com/"+id, strings.NewReader(out.req))
+			_, remove, err := martian.TestContext(r, nil, nil)
+			if err != nil {
+				panic(err)
+			}
+			defer remove()
+			s.LogRequest(id, r)
+			buf := make([]byte, 13)
+			for {
+				if _, err := r.Body.Read(buf); err != nil {
+					break
+				}
+			}
+			r.Body.Close()
+			res := &http.Response{StatusCode: 200, Status: "200 OK", Proto: "HTTP/1.1", ProtoMajor: 1, ProtoMinor: 1, Header: http.Header{"X-Id": {id}}, Request: r, Body: http.NoBody}
+			if resLen > 0 {
+				res.Body = io.NopCloser(strings.NewReader(out.res))
+			}
+			s.LogResponse(id, res)
+			io.Copy(io.Discard, res.Body)
+			res.Body.Close()
+		}
+	}
+	// decode checks a marbl byte stream: whole frames only, and per id and type contiguous data indices whose
+	// concatenation is the body, the last one terminal.
+	decode := func(where string, stream string, wants []want, complete bool) {
+		type key struct {
+			id string
+			mt marbl.MessageType
+		}
+		bodies := map[key]*strings.Builder{}
+		next := map[key]uint32{}
+		term := map[key]bool{}
+		rd := marbl.NewReader(strings.NewReader(stream))
+		for {
+			f, err := rd.ReadFrame()
+			if err == io.EOF {
+				break
+			}
+			if err != nil {
+				violation("c19_stream_torn", "%s: the stream does not decode: %v", where, err)
+				return
+			}
+			if d, ok := f.(marbl.Data); ok && d.ID != "probe000" {
+				k := key{d.ID, d.MessageType}
+				if bodies[k] == nil {
+					bodies[k] = &strings.Builder{}
+				}
+				if d.Index != next[k] || term[k] {
+					violation("c19_data_index", "%s: id %s type %d: data frame index %d after %d (terminal seen: %v)", where, d.ID, d.MessageType, d.Index, next[k], term[k])
+					return
+				}
+				next[k]++
+				term[k] = d.Terminal
+				bodies[k].Write(d.Data)
+			}
+		}
+		if !complete {
+			return
+		}
+		for _, w := range wants {
+			for mt, body := range map[marbl.MessageType]string{marbl.Request: w.req, marbl.Response: w.res} {
+				k := key{w.id, mt}
+				if bodies[k] == nil || bodies[k].String() != body || !term[k] {
+					got := -1
+					if bodies[k] != nil {
+						got = bodies[k].Len()
+					}
+					violation("c19_body_mismatch", "%s: id %s type %d: logged body has %d bytes (terminal %v), the consumer read %d", where, w.id, mt, got, term[k], len(body))
+					return
+				}
+			}
+		}
+	}
 	return []scenario{
 		{"c19: concurrent loggers", func() {
 			s := marbl.NewStream(&sink{})
@@ -565,6 +673,169 @@ func c19() []scenario {
 			}
 			parallel(log("a", 10), log("b", 5000), log("c", 1))
 			s.Close()
+		}},
+		{"c19: concurrent exchanges (request body in small reads, response http.NoBody or a 32 KiB-buffer copy), stream decoded", func() {
+			var stream strings.Builder
+			pr, pw := io.Pipe()
+			copied := make(chan struct{})
+			go func() { io.Copy(&stream, pr); close(copied) }()
+			s := marbl.NewStream(pw)
+			wants := make([]want, 4)
+			parallel(exchange(s, "ab-00001", 100, 0, &wants[0]), exchange(s, "cd-00002", 1, 70000, &wants[1]),
+				exchange(s, "ef-00003", 3000, 40000, &wants[2]), exchange(s, "gh-00004", 0, 5, &wants[3]))
+			s.Close()
+			pw.Close()
+			<-copied
+			decode("writer", stream.String(), wants, true)
+		}},
+		{"c19: stream into a handler while websocket viewers connect, read and leave", func() {
+			l, err := net.Listen("tcp", "127.0.0.1:0")
+			if err != nil {
+				panic(err)
+			}
+			h := marbl.NewHandler()
+			go http.Serve(l, h)
+			s := marbl.NewStream(h)
+			deadline := time.Now().Add(20 * time.Second)
+			// viewer dials, upgrades and reads websocket messages (server frames are unmasked) until onMsg says stop
+			var cmu sync.Mutex
+			var conns []net.Conn
+			hangUp := false
+			viewer := func(name string, onMsg func(payload []byte, f marbl.Frame) bool) func() {
+				return func() {
+					c, err := net.Dial("tcp", l.Addr().String())
+					if err != nil {
+						panic(err)
+					}
+					defer c.Close()
+					cmu.Lock()
+					conns = append(conns, c)
+					if hangUp {
+						c.Close()
+					}
+					cmu.Unlock()
+					fmt.Fprintf(c, "GET /logs HTTP/1.1\r\nHost: martian.proxy\r\nUpgrade: websocket\r\nConnection: Upgrade\r\nSec-WebSocket-Key: MDEyMzQ1Njc4OWFiY2RlZg==\r\nSec-WebSocket-Version: 13\r\nOrigin: http://martian.proxy\r\n\r\n")
+					br := bufio.NewReader(c)
+					c.SetReadDeadline(deadline)
+					res, err := http.ReadResponse(br, nil)
+					if err != nil || res.StatusCode != 101 {
+						cmu.Lock()
+						hungUp := hangUp
+						cmu.Unlock()
+						if !hungUp {
+							violation("c19_viewer_handshake", "%s: websocket upgrade failed: %v %v", name, res, err)
+						}
+						return
+					}
+					for got := 0; ; got++ {
+						hd, err := br.Peek(2)
+						if err != nil {
+							return
+						}
+						n, hl := int(hd[1]&0x7f), 2
+						if n == 126 {
+							x, err := br.Peek(4)
+							if err != nil {
+								return
+							}
+							n, hl = int(x[2])<<8|int(x[3]), 4
+						} else if n == 127 {
+							x, err := br.Peek(10)
+							if err != nil {
+								return
+							}
+							n, hl = int(x[6])<<24|int(x[7])<<16|int(x[8])<<8|int(x[9]), 10
+						}
+						op := hd[0] & 0x0f
+						br.Discard(hl)
+						payload := make([]byte, n)
+						if _, err := io.ReadFull(br, payload); err != nil || op == 8 {
+							return
+						}
+						// every websocket message is one whole marbl frame
+						rd := marbl.NewReader(strings.NewReader(string(payload)))
+						f, err := rd.ReadFrame()
+						if err != nil {
+							violation("c19_viewer_message_not_a_frame", "%s: message %d (%d bytes) does not decode: %v", name, got, n, err)
+							return
+						}
+						if _, err := rd.ReadFrame(); err != io.EOF {
+							violation("c19_viewer_message_not_a_frame", "%s: message %d (%d bytes) holds more than one frame (%v)", name, got, n, err)
+							return
+						}
+						if onMsg(payload, f) {
+							return
+						}
+					}
+				}
+			}
+			var wg, stays sync.WaitGroup
+			start := func(f func()) {
+				wg.Add(1)
+				go func() { defer wg.Done(); f() }()
+			}
+			// the viewer that stays keeps everything it receives and leaves when it has seen the terminal data frame of
+			// all six messages
+			var all strings.Builder
+			subscribed := make(chan struct{})
+			terminals, first := 0, true
+			stays.Add(1)
+			start(viewer("stays", func(payload []byte, f marbl.Frame) bool {
+				defer func() {
+					if terminals >= 6 {
+						stays.Done()
+					}
+				}()
+				if first {
+					first = false
+					close(subscribed)
+				}
+				all.Write(payload)
+				if d, ok := f.(marbl.Data); ok && d.Terminal && d.ID != "probe000" {
+					terminals++
+				}
+				return terminals >= 6
+			}))
+			// it must be subscribed before logging starts (a frame it misses would be a false alarm); the handler
+			// gives no signal, so send probe frames until one comes back
+			probe := []byte{byte(marbl.DataFrame), 0, 'p', 'r', 'o', 'b', 'e', '0', '0', '0', 0, 0, 0, 0, 0, 0, 0, 0, 0}
+		probing:
+			for i := 0; i < 5000; i++ {
+				h.Write(probe)
+				select {
+				case <-subscribed:
+					break probing
+				case <-time.After(2 * time.Millisecond):
+				}
+			}
+			seen := 0
+			start(viewer("leaves", func([]byte, marbl.Frame) bool { seen++; return seen >= 3 }))
+			late := 0
+			start(viewer("late", func([]byte, marbl.Frame) bool { late++; return late >= 40 }))
+			wants := make([]want, 3)
+			parallel(exchange(s, "ab-00001", 100, 0, &wants[0]), exchange(s, "cd-00002", 1, 70000, &wants[1]), exchange(s, "ef-00003", 300, 4000, &wants[2]))
+			s.Close()
+			// everything has been written: the viewer that stays gets it all (or its connection ends), then the
+			// other viewers are hung up on
+			waited := make(chan struct{})
+			go func() { stays.Wait(); close(waited) }()
+			select {
+			case <-waited:
+			case <-time.After(time.Until(deadline)):
+			}
+			cmu.Lock()
+			hangUp = true
+			for _, c := range conns {
+				c.Close()
+			}
+			cmu.Unlock()
+			wg.Wait()
+			l.Close()
+			if terminals < 6 {
+				violation("c19_viewer_missed_frames", "the viewer that stayed saw %d of 6 terminal data frames (%d bytes) before its connection ended", terminals, all.Len())
+			} else {
+				decode("viewer that stayed", all.String(), wants, true)
+			}
 		}},
 	}
 }
